@@ -114,6 +114,17 @@ fn run_one(
                         let key = if rng.random_bool(0.5) { "k1" } else { "k2" };
                         en.push(json!({"a":"Client","n":n,"op":"put","key":key,"val":format!("v{nclient}")}));
                     }
+                    // batches: several commands in one drain of the command channel (write + CAS + linearizable read)
+                    for &n in &ups {
+                        nclient += 1;
+                        let k = if rng.random_bool(0.5) { "k1" } else { "k2" };
+                        let exp = match rng.random_range(0..3) { 0 => "-".to_string(), 1 => format!("v{}", nclient.saturating_sub(rng.random_range(1..6))), _ => format!("c{}", nclient.saturating_sub(rng.random_range(1..6))) };
+                        en.push(json!({"a":"ClientBatch","n":n,"ops":[
+                            {"op":"put","key":k,"val":format!("v{nclient}")},
+                            {"op":"cas","key":k,"val":format!("c{nclient}"),"exp":exp},
+                            {"op":"read","key":k,"policy":"lin"}]}));
+                        en.push(json!({"a":"Client","n":n,"op":"cas","key":k,"val":format!("d{nclient}"),"exp": if rng.random_bool(0.5) {"-".to_string()} else {format!("v{}", nclient.saturating_sub(1))}}));
+                    }
                     if profile == "reads" {
                         for &n in &ups {
                             let key = if rng.random_bool(0.5) { "k1" } else { "k2" };
@@ -135,6 +146,8 @@ fn run_one(
                             ("reads", "Timeout") => 3,
                             ("reads", "DropMsg") => 8,
                             ("reads", "Heartbeat") => 25,
+                            // slow state-machine apply under reads (apply gate of linearizable reads)
+                            ("reads", "HoldApply") => if s["on"] == 0 { 5 } else { 3 },
                             ("member", "Crash") => 1,
                             ("member", "Stop") => 1,
                             ("member", "Join") => 12,
@@ -159,6 +172,7 @@ fn run_one(
                             (_, "DropMsg") => 4,
                             (_, "Heartbeat") => 12,
                             (_, "Client") => 6,
+                            (_, "ClientBatch") => 3,
                             (_, "DeliverSnap") => 20,
                             (_, "Join") => 3,
                             _ => 1,
